@@ -31,6 +31,7 @@ def _save_real():
         _real[name] = getattr(os, name)
     _real['open'] = builtins.open
     _real['sleep'] = time.sleep
+    _real['time'] = time.time
     _real['mktemp'] = tempfile.mktemp
     _real['connect'] = sqlite3.connect
     _real['use_fd'] = shutil._use_fd_functions
@@ -302,6 +303,12 @@ class SimFS(object):
             return None
         return _real['sleep'](secs)
 
+    def _time(self):
+        """wall-clock reads made by the code under test see the same clock that stamps the files"""
+        if self.armed:
+            return self.clock.now + self.clock.slept + (self.clock.tick % 1000000) * 1e-6
+        return _real['time']()
+
     def _mktemp(self, *a, **kw):
         # klepto calls tempfile.mktemp right before an import-based read:
         # used as the 'import-read' event (the import itself is atomic here)
@@ -333,6 +340,7 @@ class SimFS(object):
         _ka.open = self._open
         _kp.open = self._open
         time.sleep = self._sleep
+        time.time = self._time
         tempfile.mktemp = self._mktemp
         sqlite3.connect = self._connect
         shutil._use_fd_functions = False
@@ -350,6 +358,7 @@ class SimFS(object):
             if 'open' in mod.__dict__:
                 del mod.__dict__['open']
         time.sleep = _real['sleep']
+        time.time = _real['time']
         tempfile.mktemp = _real['mktemp']
         sqlite3.connect = _real['connect']
         shutil._use_fd_functions = _real['use_fd']
